@@ -304,6 +304,11 @@ pub fn strategy() -> BoxedStrategy<Case> {
         prop_oneof![
             3 => prop::collection::vec(elem(), 1..8),
             2 => prop::collection::vec(elem(), 1..51),
+            // subnormals and the smallest normals only (halving is not exact there)
+            1 => prop::collection::vec((1u64..40).prop_map(f64::from_bits), 1..9),
+            1 => prop::collection::vec(prop_oneof![(1u64..(1u64 << 52)).prop_map(f64::from_bits), Just(f64::MIN_POSITIVE), Just(-5e-324)], 1..9),
+            // zeros of both signs among negatives and infinities (order-sensitive shortcuts)
+            1 => prop::collection::vec(prop::sample::select(vec![0.0, -0.0, 5.0, -3.0, 7.0, f64::INFINITY, f64::NEG_INFINITY, 2.0]), 2..7),
             // many duplicates
             1 => (prop::collection::vec(elem(), 1..4), prop::collection::vec(any::<u16>(), 1..30)).prop_map(|(base, idx)| {
                 idx.iter().map(|i| base[crate::engine::pick_idx(*i, base.len())]).collect::<Vec<f64>>()
